@@ -200,7 +200,7 @@ def describe(params):
 ORDERS_L1 = [("x", "y", "source", "z"), ("source", "x", "event", "y")]
 KW_POOL_L1 = ["x", "y", "source", "q"]
 ORDERS_L2 = [("x", "source", "y", "event"), ("target", "x", "machine", "y")]
-KW_POOL_L2 = ["x", "source", "machine", "q"]
+KW_POOL_L2 = ["x", "source", "machine", "key"]  # `key`: an undeclared user keyword that happens to be a name used inside the library
 
 
 def tasks(tier):
@@ -230,7 +230,7 @@ BOUNDS = {
     "quick": "level 1 (callable_method(f)(*a, **kw)): every legal signature with <= 3 named parameters (<=1 positional-only, <=2 positional-or-keyword, "
     "<=2 keyword-only, optional *args / **kwargs, every default placement, two name assignments mixing user and reserved names), as plain function and bound "
     "method, each path binding all of 0..3 positional arguments x every subset of keywords {x, y, source, q}; level 2 (sm.send end-to-end, sync and async engine): signatures with "
-    "<= 2 named parameters as an `on_go` method, 0..2 positional arguments, keyword subsets of {x, source, machine, q} (two of them reserved names), plus the same signature on the event that an "
+    "<= 2 named parameters as an `on_go` method, 0..2 positional arguments, keyword subsets of {x, source, machine, key} (two of them reserved names, `key` undeclared), plus the same signature on the event that an "
     "`after='hop'` action forwards to; level 3: every ordered pair out of 12 callables that share one qualified name and differ in parameter kinds, keyword-only names or defaults, bound one after the other.",
     "thorough": "<= 4 named parameters at level 1 also as functools.partial and coroutine function; <= 3 named at level 2.",
 }
